@@ -650,7 +650,7 @@ def shrink(case, key):
 
 def run(rep: C.Report, tier: str) -> int:
     r = C.rng_for(PROP, "cases")
-    n_cases = 42 if tier == "quick" else 300
+    n_cases = 36 if tier == "quick" else 300
     budget = ({"build": 4, "cag": 2, "grad": 2, "call": 3, "diag": 2} if tier == "quick"
               else {"build": 8, "cag": 3, "grad": 3, "call": 4, "diag": 3})
     C.clean_gen(PROP)
